@@ -30,6 +30,12 @@ def check_mask_case(case, acc):
     acc.case(('mask', n, coding, mc, case.get('at'), case.get('ch')), nontrivial=True, outcome='mask')
     try:
         out = card.mask(pan) if mc is None else card.mask(pan, mc)
+        # the same question with the documented parameter names
+        out_kw = card.mask(card_number=pan) if mc is None else card.mask(card_number=pan, mask_char=mc)
+        if out_kw != out:
+            acc.viol('c16.mask.keyword_call', case, out_kw, out, 'mask(card_number=..., mask_char=...) differs from the '
+                     'positional call')
+            return
     except Exception as ex:
         acc.viol('c16.mask.exception', case, repr(ex), 'masked string')
         return
